@@ -346,6 +346,39 @@ def default_args(fn, b):
     return a
 
 
+def huge_buffers(rep, binary, prop, fns=None):
+    """(growth) buffers larger than anything the protocol needs: a structure followed by 10 MiB - 1 .. 2^24 + 1 bytes
+    (MC_Huge: TLC checks HugeLocal on the specification over a lazily defined input and emits the cases; the harness
+    builds the real buffers and the crate's answer is compared in full, remainder position included)."""
+    d, res, cases = vlib.tlc_single(prop, "huge", "MC_Huge", workers=1, heap="6g", timeout=900, out_name="cases.ndjson")
+    rep.add_tlc("MC_Huge", res)
+    if fns is not None:
+        cases = [c for c in cases if c["fn"] in fns]
+    if len(cases) < 5:
+        raise vlib.ToolError("MC_Huge emitted %d cases" % len(cases))
+    outs = vlib.replay_cases(binary, d, cases, name="huge")
+    vlib.judge_cases(rep, cases, outs, keyf=lambda c: "huge:%s:%s:%s" % (c["fn"], c["note"]["total"], len(c["input"][0]["lit"])))
+    rep.cov["traces_validated_against_impl"] += len(cases)
+    return len(cases)
+
+
+def len_sweep(rep, binary, prop, nchunks=12):
+    """(growth) length-domain sweeps (MC_LenSweep): for every site of this property - an entry point and a skeleton whose
+    tied length fields are all set from one L - and every L of the outermost field's domain (a residue sample in the quick
+    tier, all of 0..65535 in the thorough one) TLC checks the site's law on the specification (a well-formed encoding is
+    accepted at EVERY length and consumed up to its end; records up to the cap) and emits the case; the harness builds
+    the real input and the crate's answer is compared in full."""
+    d, res, cases = vlib.tlc_chunked(prop, "lensweep", "MC_LenSweep", nchunks=nchunks, env={"VERIF_PROP": prop}, timeout=3000)
+    rep.add_tlc("MC_LenSweep", res)
+    if len(cases) < 200:
+        raise vlib.ToolError("MC_LenSweep emitted %d cases for %s" % (len(cases), prop))
+    outs = vlib.replay_cases(binary, d, cases, name="lensweep")
+    vlib.judge_cases(rep, cases, outs, keyf=lambda c: "len:%s:site=%s:L=%s" % (c["fn"], c["note"]["site"], c["note"]["L"]))
+    rep.cov["traces_validated_against_impl"] += len(cases)
+    rep.cov["len_sweep"] = {"sites": len({c["note"]["site"] for c in cases}), "cases": len(cases)}
+    return len(cases)
+
+
 # ------------------------------------------------------------------ the streaming consumer (Stream.tla)
 def stream_runs(rep, binary, prop, fns, nwires, thorough=False):
     """Growth (C02 / C10): Stream.tla - a consumer that follows Incomplete(Needed) - is explored by TLC for every
